@@ -6,6 +6,7 @@ import (
 	"encoding/json"
 	"fmt"
 	"io"
+	"math"
 	"runtime"
 	"sync"
 	"sync/atomic"
@@ -121,7 +122,7 @@ func (d *c15Sess) close() { d.s.Stop() }
 
 func TestVerif_C15(t *testing.T) {
 	rep := vk.NewReport(t, "C15", "exploration")
-	rep.Rule = "(a) 2-8 goroutines issue Add/Find/Len on one EventCache (capacity 2-6, 8-24 related events: versions of the same addresses, deletion requests and their targets, duplicates; pairwise distinct created_at so the sequential specification is deterministic); every operation is stamped call/return on one logical clock and the history is checked for linearizability against the retention/query specification with porcupine (timeout => inconclusive); (b) the same through concurrent CacheHandler sessions (EVENT->OK, REQ->events+EOSE); (c) a long stress mix with concurrent listings judged by the store invariants; (f) dumps of a 600-900 event cache through a slow writer while three sessions replace pinned addresses and delete notes: every dump satisfies the invariants and lists each pinned address exactly once; the race detector watches all of it; verifPoint callbacks inject yields/sleeps between the phases of Add and inside Find; non-trivial = a history with at least one pair of overlapping operations of different clients; distinct = distinct histories (hash of the stamped operation sequence)"
+	rep.Rule = "(a) 2-8 goroutines issue Add/Find/Len on one EventCache (capacity 2-6, 8-24 related events: versions of the same addresses, deletion requests and their targets, duplicates; pairwise distinct created_at so the sequential specification is deterministic); every operation is stamped call/return on one logical clock and the history is checked for linearizability against the retention/query specification with porcupine (timeout => inconclusive); (b) the same through concurrent CacheHandler sessions (EVENT->OK, REQ->events+EOSE); (c) a long stress mix with concurrent listings judged by the store invariants; (e) queries and a publishing session during Restore of a dump larger than the capacity (every answer within capacity; every event acknowledged during the restore, newer than all others, is stored afterwards); (f) dumps of a 600-900 event cache through a slow writer while three sessions replace pinned addresses and delete notes: every dump satisfies the invariants and lists each pinned address exactly once; the race detector watches all of it; verifPoint callbacks inject yields/sleeps between the phases of Add and inside Find; non-trivial = a history with at least one pair of overlapping operations of different clients; distinct = distinct histories (hash of the stamped operation sequence)"
 	defer rep.Finish()
 	pc := &pointCtl{sleep: true}
 	mocrelay.SetVerifPoint(pc.fn)
@@ -435,12 +436,65 @@ func TestVerif_C15(t *testing.T) {
 				}
 			}(w)
 		}
+		// and one session publishes a few events that are newer than everything in the dump
+		// (the newest events are never the ones evicted): each is acknowledged as stored while
+		// the restore runs, so each must be there afterwards
+		var acked []*mocrelay.Event
+		pubDone := make(chan struct{})
+		go func() {
+			defer close(pubDone)
+			s := vk.StartSession(ctx, h, 4)
+			defer s.Stop()
+			time.Sleep(time.Duration(1000+r.IntN(1500)) * time.Microsecond) // usually just after the restore has begun
+			for k := 0; k < 4; k++ {
+				e := vk.Seal(&mocrelay.Event{Kind: 1, Pubkey: vk.FakePub(1590), CreatedAt: math.MaxInt64 - int64(k), Tags: []mocrelay.Tag{}, Content: fmt.Sprintf("published during restore %d/%d", round, k)})
+				if !s.Put(&mocrelay.ClientEventMsg{Event: e}) {
+					return
+				}
+				if m, ok := s.Get(); ok {
+					if okm, is := m.(*mocrelay.ServerOKMsg); is && okm.Accepted {
+						acked = append(acked, e)
+					}
+				}
+				time.Sleep(time.Duration(100+200*k) * time.Microsecond)
+			}
+		}()
 		time.Sleep(time.Millisecond)
 		if err := h.Restore(bytes.NewReader(dump.Bytes())); err != nil {
 			rep.Inconclusive("C15: restore failed: " + err.Error())
 		}
 		stop.Store(true)
 		rd.Wait()
+		<-pubDone
+		if len(acked) > 0 {
+			chk := vk.StartSession(ctx, h, 64)
+			ids := make([]string, len(acked))
+			for k, e := range acked {
+				ids[k] = e.ID
+			}
+			chk.Put(&mocrelay.ClientReqMsg{SubscriptionID: "acked", ReqFilters: []*mocrelay.ReqFilter{{IDs: ids}}})
+			found := map[string]bool{}
+			for {
+				m, ok := chk.Get()
+				if !ok {
+					break
+				}
+				if _, is := m.(*mocrelay.ServerEOSEMsg); is {
+					break
+				}
+				if em, is := m.(*mocrelay.ServerEventMsg); is {
+					found[em.Event.ID] = true
+				}
+			}
+			chk.Stop()
+			rep.Count("events_acknowledged_during_restore", int64(len(acked)))
+			for _, e := range acked {
+				if !found[e.ID] {
+					rep.Violation("concurrent/restore/acknowledged-event-lost", fmt.Sprintf("event %.8s was answered OK true by a session while Restore was running (it is newer than every other event, capacity %d), but it is not stored afterwards: no sequential order of the operations explains that", e.ID, capacity), map[string]any{"capacity": capacity, "acknowledged": len(acked), "found": len(found)})
+					break
+				}
+			}
+		}
 		rep.Eval(1)
 	}
 	// (f) Dump of a cache with several hundred events while other sessions replace versions of
